@@ -109,6 +109,10 @@ pub struct Row {
     pub encode: fn(&Arg) -> Option<String>,
     /// reference reading of a raw field text, rendered like the getter
     pub decode: fn(&str) -> Option<String>,
+    /// documented fallback field: used when `field` is absent and the alias is present
+    pub alias: Option<&'static str>,
+    /// when the setter rewrites part of an existing value: new raw value from (old raw value, argument)
+    pub merge: Option<fn(Option<&str>, &Arg) -> String>,
 }
 
 fn jl(v: &[String]) -> String {
@@ -152,6 +156,8 @@ macro_rules! row {
             expect: $expect,
             encode: $encode,
             decode: $decode,
+            alias: None,
+            merge: None,
         }
     };
 }
@@ -651,6 +657,41 @@ pub fn rows() -> Vec<Row> {
         some_s,
         |r| Some(r.split('\n').next().unwrap_or("").to_string())
     ));
+    r.push(row!(
+        D3,
+        "dep3::PatchHeader",
+        "set_long_description",
+        "Description",
+        G::Lines,
+        false,
+        |v, a| v.set_long_description(&a.l().join("\n")),
+        |v| v.long_description(),
+        |a| Some(a.l().join("\n")),
+        |a| Some(a.l().join("\n")),
+        |r| Some(r.split_once('\n').map(|x| x.1).unwrap_or("").to_string())
+    ));
+    for row in r.iter_mut() {
+        match (row.view, row.accessor) {
+            ("dep3::PatchHeader", "set_author") => row.alias = Some("From"),
+            ("dep3::PatchHeader", "set_description") => {
+                row.alias = Some("Subject");
+                // replaces the first line, keeps the long description
+                row.merge = Some(|old, a| match old.and_then(|o| o.split_once('\n')) {
+                    Some((_, rest)) => format!("{}\n{}", a.s(), rest),
+                    None => a.s().to_string(),
+                });
+            }
+            ("dep3::PatchHeader", "set_long_description") => {
+                row.alias = Some("Subject");
+                // keeps the first line, replaces the rest
+                row.merge = Some(|old, a| match old {
+                    Some(o) => format!("{}\n{}", o.split('\n').next().unwrap_or(""), a.l().join("\n")),
+                    None => a.l().join("\n"),
+                });
+            }
+            _ => {}
+        }
+    }
     r
 }
 
@@ -690,6 +731,8 @@ pub enum Ev {
     Set { view: usize, row: String, arg: Arg },
     Get { view: usize, row: String },
     Restart { plan: ReadPlan },
+    /// control only: Control::add_binary(name); the returned view is kept under `out`
+    AddBinary { name: String, out: usize },
     /// DEP-3 only: persist the header through PatchHeader::write into a faulting sink, reload from the durable image
     Persist { plan: WritePlan },
 }
@@ -704,6 +747,8 @@ pub struct Case {
 
 enum Doc {
     Plain(Deb822),
+    /// control files are reached through Control::source() / binaries() / add_binary()
+    Ctl(debian_control::lossless::Control),
     Cr(debian_copyright::lossless::Copyright),
     D3,
 }
@@ -763,6 +808,15 @@ fn make_view(l: &Live, kind: &str, para: usize) -> Option<AnyView> {
                 _ => return None,
             })
         }
+        Doc::Ctl(c) => match vk {
+            // found by their Source and Package fields, wherever they are in the file
+            "control::Source" => c.source().map(AnyView::CS),
+            "control::Binary" => {
+                let k = l.model[..para].iter().filter(|p| p.iter().any(|e| e.0 == "Package")).count();
+                c.binaries().nth(k).map(AnyView::CB)
+            }
+            _ => None,
+        },
         Doc::Cr(c) => match vk {
             "copyright::Header" => c.header().map(AnyView::CH),
             "copyright::FilesParagraph" => {
@@ -779,6 +833,7 @@ fn make_view(l: &Live, kind: &str, para: usize) -> Option<AnyView> {
 fn doc_text(l: &Live) -> String {
     match &l.doc {
         Doc::Plain(d) => d.to_string(),
+        Doc::Ctl(c) => c.to_string(),
         Doc::Cr(c) => c.to_string(),
         Doc::D3 => match l.views.get(&0) {
             Some((_, AnyView::D3(h))) => h.to_string(),
@@ -798,6 +853,7 @@ fn open(kind: &str, text: &str) -> Option<Live> {
     let mut l = Live { doc: Doc::D3, views: BTreeMap::new(), model };
     match kind {
         "copyright" => l.doc = Doc::Cr(debian_copyright::lossless::Copyright::from_str(text).ok()?),
+        "control" => l.doc = Doc::Ctl(debian_control::lossless::Control::from_str(text).ok()?),
         "dep3" => {
             if l.model.len() != 1 {
                 return None;
@@ -924,8 +980,17 @@ impl Scenario for C15 {
     fn generate(rng: &mut Rng, _tier: Tier, k: u64) -> Case {
         let kinds = ["control", "apt-source", "apt-package", "apt-release", "buildinfo", "copyright", "dep3"];
         let kind = kinds[(k as usize) % kinds.len()];
-        let text = typed::instance(rng, kind);
-        let model = segmenter::segment(&text).map(|s| segmenter::paragraphs(&s)).unwrap_or_default();
+        let mut text = typed::instance(rng, kind);
+        if kind == "control" && rng.chance(1, 3) {
+            // the source paragraph need not lead the file
+            let mut paras: Vec<String> = text.trim_end_matches('\n').split("\n\n").map(|p| format!("{}\n", p.trim_end_matches('\n'))).collect();
+            if paras.len() > 1 {
+                let k = 1 + rng.below(paras.len() - 1);
+                paras.rotate_left(k);
+                text = paras.join("\n");
+            }
+        }
+        let mut model = segmenter::segment(&text).map(|s| segmenter::paragraphs(&s)).unwrap_or_default();
         let table = rows();
         let nsteps = 1 + rng.below(8);
         let mut events = Vec::new();
@@ -938,6 +1003,14 @@ impl Scenario for C15 {
         for _ in 0..nsteps {
             seq += 1;
             let choice = rng.below(10);
+            if kind == "control" && rng.chance(1, 12) {
+                let name = format!("newbin{seq}");
+                model.push(vec![("Package".to_string(), name.clone())]);
+                events.push(Ev::AddBinary { name, out: next });
+                views.push((next, model.len() - 1, "control::Binary"));
+                next += 1;
+                continue;
+            }
             if views.is_empty() || choice < 2 {
                 if kind == "dep3" || model.is_empty() {
                     continue;
@@ -1037,7 +1110,44 @@ impl Scenario for C15 {
         for ev in &c.events {
             obs.step();
             match ev {
+                Ev::AddBinary { name, out } => {
+                    if let Doc::Ctl(ctl) = &mut l.doc {
+                        let before = ctl.to_string();
+                        probe::at("Control::add_binary");
+                        obs.prestate = if before.ends_with('\n') || before.is_empty() { "final-newline".into() } else { "no-final-newline".into() };
+                        obs.count("op.add_binary");
+                        let b = ctl.add_binary(name);
+                        l.model.push(vec![("Package".to_string(), name.clone())]);
+                        let para = l.model.len() - 1;
+                        if b.name().as_deref() != Some(name.as_str()) {
+                            return Err(v("getter-after-setter", "Control::add_binary", "new-paragraph", format!("add_binary({name:?}) returned a view whose name() is {:?}", b.name())));
+                        }
+                        l.views.insert(*out, (para, AnyView::CB(b)));
+                        let after = doc_text(&l);
+                        match Deb822::from_str(&after) {
+                            Err(e) => return Err(v("restart-error", "Control::add_binary", "new-paragraph", format!("after add_binary the text {:?} does not re-read: {}", after, e.to_string().trim()))),
+                            Ok(d) => {
+                                let got: Vec<Vec<(String, String)>> = d.paragraphs().map(|p| p.items().collect()).collect();
+                                if norm_env(got.clone()) != norm_env(l.model.clone()) {
+                                    return Err(v("model-content", "Control::add_binary", "new-paragraph", format!("after add_binary({name:?}) on {:?} the text {:?} holds {:?}, expected {:?}", before, after, got, l.model)));
+                                }
+                            }
+                        }
+                    }
+                }
                 Ev::View { para, out } => {
+                    // a control file's source and binary paragraphs are found by their Source and Package fields
+                    if let Doc::Ctl(ctl) = &l.doc {
+                        probe::at("Control::source+binaries");
+                        obs.prestate = "lookup".into();
+                        let want_source = l.model.iter().find(|p| p.iter().any(|e| e.0 == "Source") && !p.iter().any(|e| e.0 == "Package")).and_then(|p| p.iter().find(|e| e.0 == "Source").map(|e| e.1.clone()));
+                        let got_source = ctl.source().and_then(|s| s.name());
+                        let want_bins: Vec<String> = l.model.iter().filter_map(|p| p.iter().find(|e| e.0 == "Package").map(|e| e.1.clone())).collect();
+                        let got_bins: Vec<String> = ctl.binaries().filter_map(|b| b.name()).collect();
+                        if got_source != want_source || got_bins != want_bins {
+                            return Err(v("view-lookup", "Control::source+binaries", if l.model.first().map(|p| p.iter().any(|e| e.0 == "Source")).unwrap_or(false) { "source-first" } else { "source-not-first" }, format!("source() names {:?} (expected {:?}), binaries() name {:?} (expected {:?}); text {:?}", got_source, want_source, got_bins, want_bins, doc_text(&l))));
+                        }
+                    }
                     if let Some(vw) = make_view(&l, &c.kind, *para) {
                         if l.views.values().any(|(p, _)| p == para) {
                             obs.count("reach.second_view_of_same_paragraph");
@@ -1120,6 +1230,7 @@ impl Scenario for C15 {
                                     Ok(cr) => l.doc = Doc::Cr(cr),
                                     Err(_) => return Ok(()),
                                 },
+                                "control" => l.doc = Doc::Ctl(d.into()),
                                 _ => l.doc = Doc::Plain(d),
                             }
                             l.views.clear();
@@ -1158,25 +1269,21 @@ impl Scenario for C15 {
                         }
                         // list model: exactly one field with the documented name holds the reference encoding
                         let enc = (rowdef.encode)(arg);
-                        let is_dep3_desc = rowdef.view == "dep3::PatchHeader" && rowdef.field == "Description";
                         let mut target_field = rowdef.field.to_string();
+                        if let Some(al) = rowdef.alias {
+                            if !l.model[para].iter().any(|x| x.0 == rowdef.field) && l.model[para].iter().any(|x| x.0 == al) {
+                                target_field = al.to_string();
+                            }
+                        }
+                        let mut merged_value: Option<String> = None;
                         match &enc {
                             Some(e) => {
-                                let mut newval = e.clone();
-                                if is_dep3_desc {
-                                    // documented: replaces the first line, keeps the long description; Subject is used when present
-                                    if !l.model[para].iter().any(|x| x.0 == "Description") && l.model[para].iter().any(|x| x.0 == "Subject") {
-                                        target_field = "Subject".into();
-                                    }
-                                    if let Some(old) = l.model[para].iter().find(|x| x.0 == target_field) {
-                                        if let Some((_, rest)) = old.1.split_once('\n') {
-                                            newval = format!("{e}\n{rest}");
-                                        }
-                                    }
-                                }
-                                if rowdef.view == "dep3::PatchHeader" && rowdef.field == "Author" && !l.model[para].iter().any(|x| x.0 == "Author") && l.model[para].iter().any(|x| x.0 == "From") {
-                                    target_field = "From".into();
-                                }
+                                let old = l.model[para].iter().find(|x| x.0 == target_field).map(|x| x.1.clone());
+                                let newval = match rowdef.merge {
+                                    Some(m) => m(old.as_deref(), arg),
+                                    None => e.clone(),
+                                };
+                                merged_value = Some(newval.clone());
                                 if let Some(x) = l.model[para].iter_mut().find(|x| x.0 == target_field) {
                                     x.1 = newval;
                                 } else {
@@ -1188,7 +1295,10 @@ impl Scenario for C15 {
                         let after = doc_text(&l);
                         obs.event(&after);
                         // getter through every live view of this paragraph, and through a fresh one
-                        let want = (rowdef.expect)(arg);
+                        let want = match (rowdef.merge, &merged_value) {
+                            (Some(_), Some(mv)) => (rowdef.decode)(mv),
+                            _ => (rowdef.expect)(arg),
+                        };
                         let want = if rowdef.gen == G::Bool && rowdef.clears && !arg.b() { Some("false".to_string()) } else { want };
                         let fresh = make_view(&l, &c.kind, para);
                         let mut all: Vec<(String, &AnyView)> = l.views.iter().filter(|(_, (p, _))| *p == para).map(|(id, (_, vw))| (format!("view {id}"), vw)).collect();
@@ -1241,10 +1351,8 @@ impl Scenario for C15 {
                         let got = (rowdef.get)(vw);
                         let want = l.model[para].iter().find(|e| e.0 == rowdef.field).and_then(|e| (rowdef.decode)(&e.1));
                         let want = if rowdef.gen == G::Bool && rowdef.clears && want.is_none() { Some("false".into()) } else if matches!(rowdef.accessor, "set_acquire_by_hash" | "set_no_support_for_architecture_all") && want.is_none() { Some("false".into()) } else { want };
-                        let want = if rowdef.view == "dep3::PatchHeader" && rowdef.field == "Description" && want.is_none() {
-                            l.model[para].iter().find(|e| e.0 == "Subject").map(|e| e.1.split('\n').next().unwrap_or("").to_string())
-                        } else if rowdef.view == "dep3::PatchHeader" && rowdef.field == "Author" && want.is_none() {
-                            l.model[para].iter().find(|e| e.0 == "From").map(|e| e.1.clone())
+                        let want = if let (Some(al), true) = (rowdef.alias, want.is_none()) {
+                            l.model[para].iter().find(|e| e.0 == al).and_then(|e| (rowdef.decode)(&e.1))
                         } else if matches!(rowdef.gen, G::Md5s | G::Sha1s | G::Sha256s | G::Sha512s) && want.is_none() {
                             Some(String::new())
                         } else if rowdef.accessor == "set_copyright" && want.is_none() {
